@@ -6,6 +6,9 @@
          from the post-collection usage.
   C05.O  the object cell allocated by every RuntimeData::init_* is handed to object_list or released on every exit.
   C05.L  layout symmetry: every dealloc site builds its Layout the same way as an alloc site (and vice versa).
+  C05.R  a reallocating table frees its old storage with the layout of the OLD capacity: in both adjust_capacity functions the
+         capacity that enters the Layout handed to dealloc derives from the value taken out of `self.capacity`, not from
+         the new capacity (the system allocator ignores the size, the accounting allocator refunds it).
   C05.C  whoever removes an object from object_list frees it; clear drains the list.
 """
 from cao.facts import (AnchorMissing, callee_names, short, op_local, op_place, DefUse, hir_walk, hir_callee, hir_strip,
@@ -580,6 +583,65 @@ def rule_l(F):
     return res
 
 
+def rule_r(F):
+    res = []
+    for path in ("collections::hash_map::CaoHashMap::adjust_capacity", "collections::handle_table::HandleTable::adjust_capacity"):
+        f = F.fn(path)
+        du = DefUse(f)
+        tname = path.split("::")[-2]
+        deallocs = [(bi, t) for bi, t in mu.calls(f) if any(n.endswith("Allocator::dealloc") or n.endswith("::dealloc") for n in callee_names(t["func"]))]
+        if not deallocs:
+            raise AnchorMissing("dealloc in %s" % path)
+
+        def leaves(l, depth=0, seen=None):
+            seen = set() if seen is None else seen
+            out = set()
+            if l in seen or depth > 25:
+                return out
+            seen.add(l)
+            ds = [d for d in du.defs.get(l, []) if not d[3].get("place", d[3].get("dest"))["p"]]
+            if not ds:
+                if 1 <= l <= f.mir["arg_count"]:
+                    out.add("param")
+                return out
+            for d in ds:
+                if d[2] == "call":
+                    nm = callee_names(d[3]["func"])
+                    if any(n.endswith("mem::replace") for n in nm):
+                        a0 = op_local(d[3]["args"][0])
+                        if a0 is not None and mu.ref_of_field_chain(f, du, a0, ["capacity"]):
+                            out.add("old")
+                            continue
+                    for a in d[3]["args"]:
+                        q = op_place(a)
+                        if q is not None:
+                            if any(e["k"] == "field" and e["name"] == "capacity" for e in q["p"]):
+                                out.add("field")
+                            out |= leaves(q["l"], depth + 1, seen)
+                else:
+                    from cao.facts import rvalue_places
+                    for q in rvalue_places(d[3]["rv"]):
+                        if any(e["k"] == "field" and e["name"] == "capacity" for e in q["p"]):
+                            out.add("field")
+                        else:
+                            out |= leaves(q["l"], depth + 1, seen)
+            return out
+        for n, (bi, t) in enumerate(deallocs):
+            key = "C05/R/%s::adjust_capacity/old-storage-freed-with-old-capacity%s" % (tname, "" if n == 0 else "#%d" % n)
+            lay = op_local(t["args"][-1])
+            lv = leaves(lay) if lay is not None else set()
+            if "old" in lv or "field" in lv:
+                res.append(ok("C05.R", key, f.loc(t.get("ln")), "the layout of the freed block is computed from the capacity read out of self.capacity (%s)" % sorted(lv)))
+            elif "param" in lv:
+                res.append(bad("C05.R", key, f.loc(t.get("ln")),
+                               "%s::adjust_capacity frees the old storage with a layout computed from the NEW capacity: the accounting "
+                               "allocator refunds the size of the new block for the old one, so a growing table is never charged for its "
+                               "growth, the limit is not enforced for live tables and the counter underflows when the table is dropped" % tname))
+            else:
+                res.append(undecided("C05.R", key, f.loc(t.get("ln")), "origin of the freed block's layout not understood"))
+    return res
+
+
 def rule_c(F):
     res = []
     REMOVERS = ("swap_remove", "remove", "pop", "drain", "clear", "truncate", "take", "replace", "retain")
@@ -603,6 +665,35 @@ def rule_c(F):
             res.append(ok("C05.C", key, f.loc(removes[0].get("ln")), "objects removed from object_list are passed to free_object"))
         else:
             res.append(bad("C05.C", key, f.loc(removes[0].get("ln")), "%s removes objects from object_list without freeing them" % f.name))
+    # converse: whoever frees an object has taken it out of object_list (a pointer left in the list is freed again by the
+    # next sweep or clear)
+    for f in F.fns:
+        if not f.mir:
+            continue
+        frees = [t for bi, t in mu.calls(f) if "vm::runtime::RuntimeData::free_object" in callee_names(t["func"])]
+        if not frees:
+            continue
+        owner = F.fn(f.root) if f.is_closure else f
+        removes_here = False
+        for g in [owner] + F.closures_of.get(owner.short, []):
+            if not g.mir:
+                continue
+            gdu = DefUse(g)
+            for bi, t in mu.calls(g):
+                nm = callee_names(t["func"])
+                if any(n.rsplit("::", 1)[-1] in REMOVERS and (n.startswith("std::vec::Vec") or n.startswith("std::mem::")) for n in nm):
+                    a0 = op_local(t["args"][0]) if t["args"] else None
+                    if a0 is not None and mu.ref_of_field_chain(g, gdu, a0, ["object_list"]):
+                        removes_here = True
+        key = "C05/C/%s/frees-only-what-it-removed" % (owner.name)
+        if any(r["key"] == key for r in res):
+            continue
+        if removes_here:
+            res.append(ok("C05.C", key, f.loc(frees[0].get("ln")), "free_object is called where the object is taken out of object_list"))
+        else:
+            res.append(bad("C05.C", key, f.loc(frees[0].get("ln")),
+                           "%s frees an object that stays registered in object_list: the next collection or clear() frees it a second time "
+                           "(and refunds it twice)" % owner.short))
     clear = F.fn("vm::runtime::RuntimeData::clear")
     called = set()
     for _bi, names, _t in F.callgraph.sites.get(clear.short, []):
@@ -620,5 +711,6 @@ RULES = [
     Rule("C05.G", rule_g, 2, "collect before refusing; threshold from post-collection usage"),
     Rule("C05.O", rule_o, 6, "object cells are owned or released on every exit of init_*"),
     Rule("C05.L", rule_l, 14, "alloc/dealloc layout symmetry"),
-    Rule("C05.C", rule_c, 3, "removal from object_list frees; clear drains"),
+    Rule("C05.R", rule_r, 3, "reallocation frees the old storage with the old capacity's layout"),
+    Rule("C05.C", rule_c, 5, "removal from object_list frees; clear drains"),
 ]
